@@ -529,7 +529,7 @@ int main(int argc,char **argv)
 				execs++;
 			}
 			int d=depth-1;
-			while(d>=0) { if(++idx[d]<P*A) break; idx[d]=0; d--; }
+			while(d>=0) { if(++idx[d]<(d==0 ? P : P*A)) break; idx[d]=0; d--; }   // no advance before the first request
 			if(d<0) break;
 		}
 	}
